@@ -16,8 +16,16 @@ for m in re.finditer(r"^PASSED (\S+)", out, re.M):
 missing = sorted(stable - passed)
 print("baseline-stable tests passing now: %d / %d" % (len(stable & passed), len(stable)))
 if missing:
-    print("NOT PASSING (were stable):")
-    for t in missing: print("  ", t)
+    # re-run the missing ones serially once (some tests are timing/parallelism sensitive)
+    import subprocess, os
+    ids = [t.replace("::", ".py::", 1).replace(".", "/", t.split("::")[0].count(".")) for t in missing]
+    r = subprocess.run(["/venv/bin/python", "-m", "pytest", "-q", "-p", "no:cacheprovider", "--no-header", "-rA"] + ids,
+                       capture_output=True, text=True, env=dict(os.environ, PYTHONPATH=os.getcwd() + "/src", MPLBACKEND="Agg"))
+    for m in re.finditer(r"^PASSED (\S+)", r.stdout, re.M):
+        passed.add(m.group(1).replace("/", ".").replace(".py::", "::"))
+    missing = sorted(stable - passed)
+if missing:
+    print("NOT PASSING (were stable):", " ".join(missing))
 else:
     print("OK: all 183 baseline tests pass")
 P
